@@ -11,6 +11,7 @@ import (
 	"sync"
 	"sync/atomic"
 
+	"tkestack.io/galaxy/pkg/api/k8s"
 	"verif/harness/evid"
 )
 
@@ -244,7 +245,10 @@ func (k *checker) do(c *ctr, cmd, ifname string, plan map[string]int, caseID str
 		}
 	}
 	// ---- status monitor
-	if expOK && status != 200 {
+	if expOK && status != 200 && cmd == "ADD" && len(c.pod.Ports) > 0 && strings.Contains(body, "cannot open hostport") {
+		// another process took the probed-free port meanwhile: environment, not behaviour (networks stay established)
+		run.Count("concurrent_add_hostport_taken_by_other_process", 1)
+	} else if expOK && status != 200 {
 		k.violate(c, strings.ToLower(cmd)+"-fails-without-plugin-failure",
 			fmt.Sprintf("%s %s: no plugin failed but HTTP status %d: %s", cmd, c.cid, status, body), caseID)
 	} else if !expOK && status == 200 {
@@ -833,18 +837,28 @@ func phaseRandom(run *evid.Run, env *runEnv, variants, podsPer int) {
 	}
 }
 
-// runConcurrent is the body of a child process: G goroutines over one daemon whose networks all live in the shared
-// JsonConf.NetworkConf maps.
+// runConcurrent is the body of a child process: G goroutines over one daemon whose networks (mostly) live in the
+// shared JsonConf.NetworkConf maps. The daemon of this phase has a real PolicyManager and its port mapping handler
+// shares the policy manager's (fake) iptables; about 40% of the pods carry host ports; a further goroutine delivers
+// policy / pod events and full syncs meanwhile (see concpm.go). The sequence / status / isolation monitors are the
+// same as in the sequential phases.
 func runConcurrent(run *evid.Run, env *runEnv, shard, goroutines, rounds int, journal func(v interface{})) {
 	rng := run.Rng("c12-conc-cfg", shard)
 	cfg := genStaticConf(rng, confOpts{nNets: 3 + rng.Intn(2), distinctTypes: true, sharedOnly: shard%4 != 3})
-	d, err := newDaemon(env, cfg, fmt.Sprintf("conc%d", shard))
+	pw := newPolWorld()
+	d, err := newDaemonPM(env, cfg, fmt.Sprintf("conc%d", shard), pw.mk)
 	if err != nil {
 		run.Inconclusive("daemon: " + err.Error())
 		return
 	}
 	defer d.close()
 	journal(map[string]interface{}{"config": cfg})
+	pw.pm.VerifFullSync() // what the daemon does at start
+	stop, loopDone := make(chan struct{}), make(chan struct{})
+	go pw.eventLoop(run, stop, loopDone)
+	ledger := &portLedger{}
+	var fpMu sync.Mutex
+	var fingerprints []string
 	var wg sync.WaitGroup
 	for g := 0; g < goroutines; g++ {
 		wg.Add(1)
@@ -852,36 +866,102 @@ func runConcurrent(run *evid.Run, env *runEnv, shard, goroutines, rounds int, jo
 			defer wg.Done()
 			k := &checker{run: run, env: env, d: d, rd: &logReader{path: env.logPath}, concurrent: true,
 				phase: "concurrent", journal: journal}
+			do := func(c *ctr, cmd string, plan map[string]int, caseID string) bool {
+				atomic.AddInt64(&pw.inflight, 1)
+				defer atomic.AddInt64(&pw.inflight, -1)
+				return k.do(c, cmd, "eth0", plan, caseID)
+			}
 			for r := 0; r < rounds; r++ {
-				prng := run.Rng("c12-conc-pod", (shard*1000+g)*10000+r)
-				pod := genPod(prng, cfg, (shard*1000+g)*10000+r, podOpts{maxN: 4, forceForm: []string{"comma", "json"}[r%2]})
+				idx := (shard*1000+g)*10000 + r
+				prng := run.Rng("c12-conc-pod", idx)
+				pod := genPod(prng, cfg, idx, podOpts{maxN: 4, forceForm: []string{"comma", "json"}[r%2]})
+				pod.NodeName = pw.host
+				pod.Labels = map[string]string{"app": []string{"web", "db"}[prng.Intn(2)], "role": []string{"client", "server"}[prng.Intn(2)]}
+				addPorts(run, prng, pod, shard)
 				c := k.newCtr(pod)
 				caseID := fmt.Sprintf("%d:conc:%d:%d:%d", run.Seed, shard, g, r)
 				list, _ := resolve(pod, cfg, "eth0")
 				if !k.ensurePod(c) {
 					return
 				}
+				pw.podAdded(pod.object(), fmt.Sprintf("10.%d.%d.%d", 100+shard%100, g, 10+r%240))
 				var plan map[string]int
 				if prng.Intn(3) == 0 {
 					plan = randomPlan(prng, typesOf(list), false)
 				}
-				if !k.do(c, "ADD", "eth0", plan, caseID) {
+				if !do(c, "ADD", plan, caseID) {
 					return
+				}
+				var opened []k8s.Port
+				if last := c.steps[len(c.steps)-1]; last.Status == 200 {
+					run.Count("concurrent_adds_through_policy_sync", 1)
+					if policySelects(pod.NS, pod.Labels) {
+						run.Count("concurrent_adds_of_policy_selected_pods", 1)
+					}
+					if len(pod.Ports) > 0 {
+						opened = savedPorts(c.cid)
+						run.Count("concurrent_adds_with_ports", 1)
+						run.Count("hostport_sockets_opened", int64(len(opened)))
+						if pod.PortMapAnn {
+							run.Count("concurrent_adds_with_random_hostport", 1)
+						}
+					}
 				}
 				if prng.Intn(3) == 0 {
 					plan = randomPlan(prng, typesOf(list), false)
 				} else {
 					plan = nil
 				}
-				if !k.do(c, "DEL", "eth0", plan, caseID) {
+				if !do(c, "DEL", plan, caseID) {
 					return
 				}
+				atomic.AddInt64(&pw.inflight, 1)
 				k.drain(c, caseID)
-				run.Nontrivial(fmt.Sprintf("conc|g=%d|n=%d", goroutines, len(list)))
+				atomic.AddInt64(&pw.inflight, -1)
+				pw.podGone(pod.NS, pod.Name)
+				if c.state == nil {
+					for _, op := range opened {
+						ledger.add(closedPort{Key: fmt.Sprintf("%s:%d", strings.ToLower(op.Protocol), op.HostPort), Cid: c.cid,
+							Pod: pod.NS + "/" + pod.Name, Case: caseID})
+					}
+					if len(opened) > 0 {
+						run.Count("concurrent_dels_through_port_cleanup", 1)
+					}
+				}
+				fpMu.Lock()
+				fingerprints = append(fingerprints, fmt.Sprintf("conc|g=%d|n=%d|ports=%d|policy=%v", goroutines, len(list), len(pod.Ports),
+					policySelects(pod.NS, pod.Labels)))
+				fpMu.Unlock()
 			}
 		}(g)
 	}
 	wg.Wait()
+	close(stop)
+	<-loopDone
+	// every pod is gone: none of the host-port sockets of torn-down pods may still be held by this process
+	if bound, err := ownBoundPorts(); err != nil {
+		run.Count("socket_leftover_check_skipped", 1)
+	} else {
+		run.Count("socket_leftover_checks", int64(len(ledger.closed)))
+		for _, cp := range ledger.closed {
+			if bound[cp.Key] {
+				run.Count("viol_hostport-socket-still-open-after-del", 1)
+				violateCapped(run, evid.Violation{Sig: "hostport-socket-still-open-after-del",
+					Msg: fmt.Sprintf("pod %s (container %s): host port %s is still bound by the daemon process after its DEL succeeded "+
+						"and all pods are gone", cp.Pod, cp.Cid, cp.Key),
+					Witness: map[string]interface{}{"daemon_config": cfg, "closed_port": cp}, Case: cp.Case}, 4)
+			}
+		}
+	}
+	// the concurrent phase only counts as non-trivial if it reached the port-mapping and policy paths
+	if run.Counter("concurrent_adds_with_ports") > 0 && run.Counter("hostport_sockets_opened") > 0 &&
+		run.Counter("policy_syncs_overlapped_with_cni_requests") > 0 && run.Counter("concurrent_adds_of_policy_selected_pods") > 0 {
+		for _, fp := range fingerprints {
+			run.Nontrivial(fp)
+		}
+	} else {
+		run.Count("concurrent_shards_without_portmapping_or_policy_paths", 1)
+	}
 }
 
 // phaseConflist: a network that exists only as a .conflist file in the conf dir (GetNetworkConfig explicitly
